@@ -20,7 +20,7 @@ DEMO_WITHOUT=$(go test $RACE -vet=off -count=1 -run 'Seed|seed|Demo' . 2>&1 | ta
 git apply $OUT/patch.diff || { echo "PATCH DOES NOT APPLY"; cd /; git -C /repo worktree remove --force $WT; exit 3; }
 DEMO_WITH=$(go test $RACE -vet=off -count=1 -run 'Seed|seed|Demo' . 2>&1 | tail -3 | tr '\n' ' ')
 rm zz_seed_demo_test.go
-SUITE=$(go test -vet=off -count=1 ./... 2>&1 | tail -3 | tr '\n' ' ')
+go test -vet=off -count=1 ./... > $OUT/suite.log 2>&1; SUITE=$(tail -3 $OUT/suite.log | tr "\n" " ")
 cd /; git -C /repo worktree remove --force $WT
 echo "demo without change: $DEMO_WITHOUT"
 echo "demo with change:    $DEMO_WITH"
